@@ -5,6 +5,7 @@ All analyses work on the facts emitted by /verif/driver (MIR `mir_built` of the 
 Nothing here executes surrealkv code.
 """
 import json
+import os
 import re
 from collections import defaultdict, deque
 
@@ -91,7 +92,7 @@ def aliases(name):
 
 class Call:
     __slots__ = ("body", "bb", "callee", "args", "dest", "target", "unwind", "ret_ty", "line",
-                 "targets", "names", "expansion")
+                 "targets", "names", "expansion", "inl", "copy_of")
 
     def __init__(self, body, bb, t, line, expansion):
         self.body = body
@@ -102,6 +103,11 @@ class Call:
         self.target = t[4]
         self.unwind = t[5]
         self.ret_ty = t[6]
+        # spliced private helper (see inline.py): the CFG successor is the copy's entry block, the
+        # continuation "after the call" (where dest is written) is the join block
+        self.inl = t[7] if len(t) > 7 else None
+        if self.inl:
+            self.target = self.inl["join"]
         self.line = line
         self.expansion = expansion
         self.targets = []  # canonical names of possible callees
@@ -135,6 +141,9 @@ class Body:
         self.self_ty = raw.get("self_ty")
         self.impl_trait = raw.get("impl_trait")
         self.name = raw.get("name")
+        self.inlined = raw.get("inlined", [])  # private helpers whose blocks were spliced in
+        self.absorbed = raw.get("absorbed", False)  # private helper spliced into every caller
+        self.is_priv = raw.get("priv", False)
         n = len(self.blocks)
         self.succ = [[] for _ in range(n)]
         self.pred = [[] for _ in range(n)]
@@ -160,6 +169,7 @@ class Body:
                 if t[4] is not None:
                     s = [t[4]]
                 c = Call(self, i, t, bl["l"], bl["x"])
+                c.copy_of = bl.get("inl")
                 self.calls.append(c)
                 self.call_at[i] = c
             elif k == "assert":
@@ -317,6 +327,8 @@ class Body:
                 else:
                     d[(lhs[0], "proj")].append(("assign", i, j, rv, lhs))
             for c in self.calls:
+                if c.inl:
+                    continue  # spliced helper: dest is assigned from the copy's return place in the join block
                 if len(c.dest) == 1:
                     d[c.dest[0]].append(("call", c.bb, c))
                 else:
@@ -367,6 +379,10 @@ class Facts:
         with open(path) as fh:
             raw = json.load(fh)
         self.raw = raw
+        self.inline_report = None
+        if not os.environ.get("SKV_NO_INLINE"):
+            from .inline import inline_private_helpers
+            self.inline_report = inline_private_helpers(raw)
         self.bodies = {}
         for b in raw["bodies"]:
             self.bodies[b["id"]] = Body(b, self)
@@ -424,8 +440,9 @@ class Facts:
     def closures_of(self, body, recursive=True):
         """closure / coroutine bodies syntactically nested in `body`"""
         res = []
+        owners = {body.id} | set(body.inlined)
         for b in self.bodies.values():
-            if b.parent == body.id:
+            if b.parent in owners:
                 res.append(b)
                 if recursive:
                     res.extend(self.closures_of(b, True))
@@ -708,11 +725,16 @@ class Facts:
         """all call sites in the crate whose callee matches"""
         pats = set(pats)
         res = []
-        for b in self.bodies.values():
+        for b in self.scan_bodies():
             for c in b.calls:
                 if c.bb in b.live and (c.names & pats):
                     res.append(c)
         return res
+
+    def scan_bodies(self):
+        """the bodies a crate-wide scan should visit: everything except private helpers that were
+        spliced into every one of their callers (their code is visited there, in context)"""
+        return [b for b in self.bodies.values() if not b.absorbed]
 
     def lock_for_type(self, prot):
         """the struct field `Owner.field` whose type is a lock around type `prot` (unique), e.g.
@@ -1767,11 +1789,20 @@ def feasible_reach(body, starts, avoid=()):
             succ = hit if hit else [t[3]]
         elif t[0] == "call":
             c = body.call_at.get(b)
-            if c is not None:
+            if c is not None and not c.inl:
+                known = None
+                if any(n.endswith("Try::branch") for n in c.names) and c.args and c.args[0][0] in ("c", "m") \
+                        and len(c.args[0][1]) == 1 and not isinstance(fd.get(c.args[0][1][0], ()), tuple):
+                    # `?` on a value whose variant is known: Ok/Some -> Continue(0), Err/None -> Break(1)
+                    a0 = c.args[0][1][0]
+                    ty = body.local_ty(a0)
+                    if ty.startswith("std::result::Result<"):
+                        known = fd[a0]
+                    elif ty.startswith("std::option::Option<"):
+                        known = 1 - fd[a0]
                 fd.pop(c.dest[0], None)
-                for a in c.args:
-                    # a &mut borrow passed to a call may change the value: refs were killed above
-                    pass
+                if known is not None and len(c.dest) == 1:
+                    fd[c.dest[0]] = known
         nf = frozenset(fd.items())
         for x in succ:
             dq.append((x, nf))
